@@ -18,6 +18,7 @@ RULE = ("C03 systems with mixed residue sizes in cubic and rectangular boxes fro
         "distinct = spec hash")
 ASSUMPTIONS = ["residue sizes are the values in Topology.volumes for the residue's template key (captured)",
                "the cut-off is the engine's own (twice the largest size)", "time-outs are inconclusive"]
+RULE += (' A third of the eligible systems carry a [ distance_restraints ] entry on the first molecule type: the limits on accepted positions stay the same.')
 BUDGET = {"quick": (16, 40), "thorough": (16, 1500)}
 
 
